@@ -511,6 +511,35 @@ def mstep (ci : Nat → α → α) (st : MState α) : MOp α → MState α
 
 def mrun (ci : Nat → α → α) (st : MState α) (ops : List (MOp α)) : MState α := ops.foldl (mstep ci) st
 
+/-! ### percentile scale
+
+`tools.percentile_scale(model, per)` hands the curve `1 - correlation(x) - per` to a root finder started at
+`per * len_rescaled`.  What it is meant to return is the smallest positive lag at which the correlation has
+dropped to `1 - per`.  Because `correlation(r) = cor(|r| / len_rescaled)`, that lag is `len_rescaled` times the
+smallest non-negative `h` with `cor h = 1 - per` — for every `rescale`.  Closed forms of that `h` for the
+elementary kernels (theorems in `Props/C03Pct`): -/
+
+/-- percentile scale of a model whose `cor` first drops to `1 - per` at the non-dimensional lag `hstar` -/
+def percentileScale (p : Par α) (hstar : α) : α := lenRescaled p * hstar
+
+/-- Exponential: `exp(-h) = 1 - per` -/
+def exponentialPct (per : α) : α := -(log (((1:Nat):α) - per))
+/-- Gaussian: `exp(-h²) = 1 - per` -/
+def gaussianPct (per : α) : α := sqrt (-(log (((1:Nat):α) - per)))
+/-- Stable: `exp(-h^alpha) = 1 - per` -/
+def stablePct (alpha per : α) : α := rpow (-(log (((1:Nat):α) - per))) (((1:Nat):α) / alpha)
+/-- Rational: `(1 + h²/alpha)^(-alpha) = 1 - per` -/
+def rationalPct (alpha per : α) : α :=
+  sqrt (alpha * (rpow (((1:Nat):α) - per) (-(((1:Nat):α) / alpha)) - ((1:Nat):α)))
+/-- Linear: `1 - h = 1 - per` -/
+def linearPct (per : α) : α := per
+/-- TPLSimple: `(1 - h)^nu = 1 - per` -/
+def tplSimplePct (nu per : α) : α := ((1:Nat):α) - rpow (((1:Nat):α) - per) (((1:Nat):α) / nu)
+/-- Matern `nu = 1/2`: `exp(-sqrt(1/2) h) = 1 - per` -/
+def matern12Pct (per : α) : α := -(log (((1:Nat):α) - per)) / sqrt (0.5:α)
+/-- Matern `nu > 20` (Gaussian limit of the code): `exp(-(h/2)²) = 1 - per` -/
+def maternLimitPct (per : α) : α := ((2:Nat):α) * sqrt (-(log (((1:Nat):α) - per)))
+
 /-! ### driver -/
 
 /-- kernels addressable from the harness: name, dimension, one float optional argument, one natural -/
@@ -554,6 +583,18 @@ def corIntegralByName (name : String) (dim : Nat) (a : Float) : Option Float :=
     | 2 => some circularCorIntegral
     | 3 => some sphericalCorIntegral
     | _ => none
+  | _ => none
+
+def pctByName (name : String) (a per : Float) : Option Float :=
+  match name with
+  | "Exponential" => some (exponentialPct per)
+  | "Gaussian" => some (gaussianPct per)
+  | "Stable" => some (stablePct a per)
+  | "Rational" => some (rationalPct a per)
+  | "Linear" => some (linearPct per)
+  | "TPLSimple" => some (tplSimplePct a per)
+  | "Matern12" => some (matern12Pct per)
+  | "MaternLimit" => some (maternLimitPct per)
   | _ => none
 
 def routeByName (s : String) : Option Route :=
@@ -758,6 +799,24 @@ def ops (op : String) (j : Json) : Option (Except String Json) :=
         let st := mstep ci acc.1 op
         (st, acc.2 ++ [[st.par.lenScale] ++ reportedISVec ci st])) (st0, [[st0.par.lenScale] ++ reportedISVec ci st0])
       return fl2 out)
+  /- percentile scale of the closed-form kernels after a (possibly empty) history of in-place changes:
+     `len_rescaled` of the CURRENT parameters times the kernel's percentile lag -/
+  | "covfn_percentile" => some (do
+      let name ← getStr j "kernel"
+      let p ← getPar j
+      let a := optFloat j "a" 1.0
+      let pers ← getFloats j "per"
+      let st0 : MState Float := { par := p, dim := optNat j "dim" 1, shape := a, anis := [] }
+      let ci : Nat → Float → Float := fun d a => (corIntegralShape name d a).getD (0.0 / 0.0)
+      let ops ← match j.getObjVal? "ops" with
+        | .ok (Json.arr a) => a.toList.mapM mopOfJson
+        | _ => pure []
+      let st := mrun ci st0 ops
+      let out ← pers.toList.mapM fun per =>
+        match pctByName name st.shape per with
+        | some h => pure (percentileScale st.par h)
+        | none => throw s!"no percentile model for {name}"
+      return fl ([lenRescaled st.par] ++ out))
   | "covfn_default_rescale" => some (do
       let name ← getStr j "kernel"
       return fl [if name == "Gaussian" then gaussianRescale else 1.0])
